@@ -679,6 +679,18 @@ def scratch_dir():
     return tempfile.TemporaryDirectory(prefix="vf-", dir=base)
 
 
+_OPEN_FILES = []
+
+
+def release_files():
+    while _OPEN_FILES:
+        ds, tmp = _OPEN_FILES.pop()
+        try:
+            ds.close()
+        finally:
+            tmp.cleanup()
+
+
 def build(spec):
     """Build the dataset for a spec in the mode it asks for."""
     raw = build_raw(spec)
@@ -692,6 +704,16 @@ def build(spec):
         size = spec.get("chunks", 2)
         decoded = xarray.decode_cf(raw)
         return decoded.chunk({d: size for d in decoded.dims})
+    if mode == "file":
+        # written to a netCDF file and opened lazily, as a user opens a model output file:
+        # the arrays stay on disk until something asks for them.  The file lives until
+        # release_files() is called (the runner does that after every check).
+        tmp = scratch_dir()
+        path = os.path.join(tmp.name, "case.nc")
+        raw.to_netcdf(path)
+        ds = xarray.open_dataset(path)
+        _OPEN_FILES.append((ds, tmp))
+        return ds
     if mode == "netcdf":
         with scratch_dir() as tmp:
             path = os.path.join(tmp, "case.nc")
